@@ -4,7 +4,7 @@
 From Coq Require Import List NArith Lia ZifyN ZifyNat ZifyBool ZArith Bool.
 From Coq Require Import Strings.Byte.
 From GoBT Require Import lib.Bytes lib.Checked lib.VarInt model.Tx model.Push spec.PushSpec proofs.PushProofs
-  model.Inscription.
+  model.Inscription spec.OrdSpec.
 From GoBT Require model.Fees.
 Import ListNotations.
 Local Open Scope N_scope.
@@ -194,7 +194,7 @@ Definition p2pkh_toks (h20 : bytes) : list token :=
 Definition envelope_toks (ct data : bytes) : list token :=
   [TOp x00; TOp x63; TPush [x03] ordinals_prefix; TOp x51; push_tok ct; TOp x00; push_tok data; TOp x68].
 Definition enriched_toks (enriched : option (list bytes)) : list token :=
-  match enriched with Some (_ :: _ as dd) => TOp x6a :: map push_tok dd | _ => [] end.
+  match enriched with Some ((_ :: _) as dd) => TOp x6a :: map push_tok dd | _ => [] end.
 Definition inscription_toks (h20 ct data : bytes) (enriched : option (list bytes)) : list token :=
   p2pkh_toks h20 ++ envelope_toks ct data ++ enriched_toks enriched.
 
@@ -351,3 +351,4 @@ Proof.
   destruct (is_op_zero_part s p 11); [|congruence]. destruct (is_op_zero_part s p 9); [|congruence].
   rewrite slice_ok by (rewrite ?lenNg_lenN; lia). discriminate.
 Qed.
+
